@@ -706,10 +706,25 @@ func c10FirstAttempt(c *Check) {
 				stored = objOf(info, as.Lhs[0])
 			}
 			call := r.CallAt(sites[0], store)
+			isCopyOfParam := func(rhs ast.Expr) bool {
+				call, ok := ast.Unparen(rhs).(*ast.CallExpr)
+				return ok && methodName(call) == "Copy" && len(call.Args) == 0 && objOf(info, callRecv(call)) == hdrP
+			}
+			sharesStorage := false
 			keepsHdr := r.Assigns(func(l, rhs ast.Expr) bool {
 				fv := fieldOf(info, l)
-				return fv != nil && hdrT(fv.Type()) && rhs != nil && objOf(info, rhs) == hdrP
+				if fv == nil || !hdrT(fv.Type()) || rhs == nil {
+					return false
+				}
+				if objOf(info, rhs) == hdrP {
+					sharesStorage = true
+					return true
+				}
+				return isCopyOfParam(rhs)
 			})
+			// textproto.Header is a struct of a slice and a map: a copy made by assignment shares its storage with the
+			// caller's value, which the caller (a pipeline that hands one header to several deliveries) goes on using
+			c.Hold("R3f", "queueDelivery.Body:header-copied", r.FI.Decl.Pos(), !sharesStorage, "Body keeps the header value it was given, which shares its storage with the caller's: a field added later by a sibling delivery of the same pipeline (a second nested pipeline signing the message) lands in the header the first attempt sends, while the spool – and every retry – has the header that was accepted")
 			keepsBody := r.Assigns(func(l, rhs ast.Expr) bool {
 				fv := fieldOf(info, l)
 				return fv != nil && bufT(fv.Type()) && rhs != nil && stored != nil && objOf(info, rhs) == stored
